@@ -82,6 +82,7 @@ _wrap_outcomes(TagTT, rec.TT)
 class Impl:
     def __init__(self, top, observers=(), sinks=(), tagger=(frozenset(), frozenset()), skippair=True, stream_sink=None, dict_sink=None, tbtr=None, inner_tagger=frozenset()):
         self.inner_tagger = inner_tagger
+        self.retained = []  # (tag set object handed to a consumer, frozen copy at that time)
         self.top = top
         self.observers = list(observers)  # recorders with .seen
         self.sinks = list(sinks)  # things with .log to clear
@@ -321,6 +322,20 @@ class System:
                     got = [frozenset(d["tags"] or ()) for d in impl.dict_sink]
                     if got != [expect_seen]:
                         problems.append(("observed-tags", "StreamToDict reported tags %r, reporter's tags were %r" % ([sorted(s) for s in got], sorted(expect_seen))))
+        # tag sets already handed to a stream consumer must not change afterwards
+        if impl.stream_sink is not None:
+            for e in impl.stream_sink.log:
+                if e[0] == "status" and e[1]["test_tags"] is not None:
+                    impl.retained.append((e[1]["test_tags"], frozenset(e[1]["test_tags"])))
+        if impl.dict_sink is not None:
+            for d in impl.dict_sink:
+                if d["tags"] is not None:
+                    impl.retained.append((d["tags"], frozenset(d["tags"])))
+        if check:
+            for obj, frozen in impl.retained:
+                if frozenset(obj) != frozen:
+                    problems.append(("observed-tags-retroactive", "a tag set reported earlier as %r has since become %r" % (sorted(frozen), sorted(obj))))
+                    break
         # consume harness logs so that canonical states only hold persistent state
         for o in impl.observers:
             del o.seen[:]
